@@ -70,7 +70,37 @@ def run_case(rng, idx, tier):
     from distance3d import gjk, mpr, epa as epa_mod
     from distance3d.gjk import _gjk_nesterov_accelerated as NA, _gjk_jolt as J, _gjk_original as GO, _gjk_nesterov_accelerated_primitives as NP
     kA = O.KINDS[idx % 10]; kB = O.KINDS[(idx // 10) % 10]
-    sA, sB, cls, truth = pairs.make_pair(rng, kA, kB, class_p=CLASS_P, needle_p=0.2, degenerate_p=0.3)
+    if idx % 7 == 3:
+        # the small end of the size domain (features 0.01 .. 0.05, flat faces and needle tips) across a gap of 1e-4 .. 2e-2:
+        # the degenerate exits of the boolean tests (repeated support point, flat tetrahedron) are taken here
+        from .. import gen
+        if rng.random() < 0.5:
+            sA, sB, cls, truth = pairs.make_pair(rng, kA, kB, class_p={"gap": 1.0}, smin=1e-2, smax=5e-2, needle_p=0.3, degenerate_p=0.3)
+            sB, _u, _pa, _pb = gen.place_gap(rng, sA, sB, gen.logu(rng, 1e-4, 2e-2), truth.get("u"))
+            cls = cls.replace("gap", "small-gap", 1)
+        else:
+            # the same, exactly axis-aligned: lattice shapes (or a vertex / segment / planar polygon as hull) scaled to
+            # 1e-2, a needle now and then, B in front of A along a coordinate axis
+            def lat(kind):
+                if kind == "hull" and rng.random() < 0.5:
+                    V = {"v": np.zeros((1, 3)), "s": np.array([[0.0, 0, 0], [1.0, 0, 0]]),
+                         "q": np.array([[0.0, 0, 0], [1.0, 0, 0], [0, 1.0, 0], [1.0, 1.0, 0]])}[str(rng.choice(["v", "s", "q"]))]
+                    sp = {"kind": "hull", "V": np.ascontiguousarray(V[:, rng.permutation(3)] * float(rng.choice([0.01, 0.02, 1.0]))), "sub": "degenerate:aligned"}
+                else:
+                    sp = O.scaled(pairs.lattice_spec(rng, kind), 0.01)
+                    if sp["kind"] == "box" and rng.random() < 0.3:
+                        sz = np.array(sp["size"], float); sz[int(rng.integers(3))] = 10.0; sp = dict(sp, size=sz)
+                return sp
+            sA, sB = lat(kA), lat(kB)
+            u = np.zeros(3); u[int(rng.integers(3))] = float(rng.choice([-1.0, 1.0]))
+            oA0, oB0 = O.oracle(sA), O.oracle(sB)
+            g = float(rng.choice([0.001, 0.0025, 0.005, 0.01]))
+            pA = oA0.sup(u); pB = oB0.sup(-u)
+            lateral = (pA - pB) - ((pA - pB) @ u) * u if rng.random() < 0.6 else np.zeros(3)
+            sB = O.translated(sB, u * (oA0.h(u) + g + oB0.h(-u)) + lateral)
+            cls = "small-gap-aligned"; truth = {"dist": None, "common": None, "depth": None}
+    else:
+        sA, sB, cls, truth = pairs.make_pair(rng, kA, kB, class_p=CLASS_P, needle_p=0.2, degenerate_p=0.3)
     A, B = pairs.build_pair(sA, sB)
     names = (O.name(sA), O.name(sB))
     viol = []; worst = {}
@@ -199,6 +229,8 @@ def run_case(rng, idx, tier):
     # mechanism that bounds the capped loops; run them with a tiny cap and attribute the work to phases
     if idx % 2 == 0:
         _cap_stress(A, B, sA, sB, r_jolt, ev, viol, key0, names, cls)
+    if idx % 25 == 7:
+        _epa_raised_caps(rng, ev, viol)
     # self collision on a small BVH of proxied colliders
     if idx % 8 == 0:
         _self_collision(rng, sA, sB, ev, viol, worst, key0)
@@ -243,6 +275,52 @@ def _self_collision(rng, sA, sB, ev, viol, worst, key0):
     except Exception as e:  # noqa: BLE001
         viol.append({"key": dict(key0, fn="self_collision", kind="exception", exc=type(e).__name__), "err": None,
                      "msg": "self_collision.detect on %d colliders raised %s: %s" % (len(specs), type(e).__name__, str(e)[:200])})
+
+
+def _epa_raised_caps(rng, ev, viol):
+    """EPA with its documented limits raised (max_iter, max_faces) on a symmetric smooth pair: two round shapes whose
+    centres are offset exactly along a coordinate axis, start tetrahedron from the support differences in +x, +y, +z and
+    (-1,-1,-1). Many faces become visible at once there (the loose-edge buffer fills). The call has to return or raise
+    the documented capacity assertion within the case's CPU budget."""
+    from distance3d import epa as epa_mod
+    kinds = ["sphere", "cylinder", "capsule", "ellipsoid"]
+
+    def make(c):
+        k = str(rng.choice(kinds)); T = O.pose(np.eye(3), c)
+        if k == "sphere":
+            return {"kind": k, "c": np.array(c, float), "r": 0.5}
+        if k == "cylinder":
+            return {"kind": k, "T": T, "r": 0.5, "l": 1.0}
+        if k == "capsule":
+            return {"kind": k, "T": T, "r": 0.5, "h": 0.5}
+        return {"kind": k, "T": T, "radii": np.array([0.5, 0.5, 0.75])}
+    off = np.zeros(3); off[int(rng.integers(3))] = float(rng.choice([0.05, 0.1, -0.05, 0.25]))
+    sA = make(np.zeros(3)); sB = make(off)
+    from .. import gen
+    A = gen.build(sA); B = gen.build(sB)
+    dirs = np.array([[1.0, 0, 0], [0, 1.0, 0], [0, 0, 1.0], [-1.0, -1.0, -1.0]])
+    S = np.array([np.asarray(A.support_function(d), float) - np.asarray(B.support_function(-d), float) for d in dirs])
+    try:
+        bary = np.linalg.solve(np.vstack((S.T, np.ones(4))), np.array([0.0, 0, 0, 1.0]))
+    except np.linalg.LinAlgError:
+        return
+    if not np.all(bary > 1e-3):
+        return
+    pa = monitors.Counted(A, 20 * LIMIT); pb = monitors.Counted(B, 20 * LIMIT)
+    key = {"cls": "symmetric-smooth", "needle": False, "degenerate": False, "fn": "epa[raised limits]"}
+    try:
+        mtv, faces, ok = epa_mod.epa(S, pa, pb, max_iter=256, max_faces=2048)
+        ev["epa_raised_limit_calls"] = ev.get("epa_raised_limit_calls", 0) + 1
+        if ok and not np.all(np.isfinite(np.asarray(mtv, float))):
+            viol.append({"key": dict(key, kind="non-finite-output", simplex_degenerate=False), "err": None, "msg": "epa(max_iter=256, max_faces=2048) returned %r" % (mtv,)})
+    except AssertionError:
+        ev["epa_raised_limit_calls"] = ev.get("epa_raised_limit_calls", 0) + 1
+    except monitors.SupportBudgetExceeded:
+        viol.append({"key": dict(key, kind="support-budget-exceeded"), "err": None,
+                     "msg": "epa(max_iter=256, max_faces=2048) on %s/%s used more than %d support evaluations" % (sA["kind"], sB["kind"], 20 * LIMIT)})
+    except Exception as e:  # noqa: BLE001
+        viol.append({"key": dict(key, kind="exception", exc=type(e).__name__, simplex_degenerate=False), "err": None,
+                     "msg": "epa(max_iter=256, max_faces=2048) on %s/%s raised %s: %s" % (sA["kind"], sB["kind"], type(e).__name__, str(e)[:160])})
 
 
 def _cap_stress(A, B, sA, sB, r_jolt, ev, viol, key0, names, cls):
